@@ -18,14 +18,14 @@ TITLE = 'concurrent builds do not influence each other'
 RULE = ('2-3 threads, each Builder() + add_source(own file, safe=own flag) + build() (+ Config(...)), over generated files with an include, '
         '!unsafe markers, nested includes with !path, a second source with the opposite safe flag, a raw string source with a filename, !eval / !xref '
         'nodes, a lazily included file, and failing inputs (parse error, missing include, merge error, failing !eval, unfilled !required), run under a generated schedule of <=200 '
-        '(thread, quantum) pairs with quanta biased to 1-20 line events inside the awesomeyaml package; non-trivial = >=3 context switches '
+        '(thread, quantum) pairs with quanta biased to 1-20 line events inside the awesomeyaml package; half of the cases use twin bodies (same work, alternating safe flags), half of those a strict small-quantum round-robin from the first line on; non-trivial = >=3 context switches '
         'and threads differing in file and safe flag, or one thread failing; distinct = hash of the case')
-BUDGET = {'quick': (4, 50), 'thorough': (16, 1500)}
+BUDGET = {'quick': (4, 60), 'thorough': (16, 1500)}
 SHRINK_CAP = {'quick': 60, 'thorough': 400}
 ASSUMPTIONS = ['context switches happen only at python line events inside the awesomeyaml package (not inside PyYAML / C code): the granularity the property states',
                'interleavings are sampled; each sampled interleaving is exact and replayable; nothing is claimed for interpreters without a GIL']
 
-BODY_KINDS = ['plain', 'plain', 'include', 'include', 'unsafe', 'parse-error', 'missing-include', 'merge-error',
+BODY_KINDS = ['plain', 'include', 'include', 'include', 'nested-include', 'unsafe', 'parse-error', 'missing-include', 'merge-error',
               'two-sources', 'nested-include', 'eval', 'eval-error', 'rec', 'required-missing', 'raw-string']
 EVALUABLE = ('plain', 'include', 'unsafe', 'two-sources', 'nested-include', 'eval', 'eval-error', 'rec', 'required-missing', 'raw-string')
 
@@ -37,6 +37,11 @@ def _case(draw):
     for i in range(n):
         bodies.append({'kind': draw(st.sampled_from(BODY_KINDS)), 'safe': draw(st.booleans()), 'evaluate': draw(st.booleans()),
                        'size': draw(st.integers(1, 4))})
+    if draw(st.booleans()):
+        # twins: the same kind of work in every thread (different files, alternating safe flags), so that under a fine-grained
+        # round-robin the threads pass through the same code at the same time
+        for i, b in enumerate(bodies[1:], 1):
+            b.update(kind=bodies[0]['kind'], size=bodies[0]['size'], evaluate=bodies[0]['evaluate'], safe=(bodies[0]['safe'] if i % 2 == 0 else not bodies[0]['safe']))
     pair = st.tuples(st.integers(0, n - 1), st.one_of(st.integers(1, 20), st.integers(1, 20), st.integers(20, 400)))
     # a random prefix (where in the run the fine-grained part starts), then a short pattern repeated many times so that the
     # switches keep falling inside the add_source / api_entry windows, then round-robin with a drawn quantum
@@ -44,7 +49,13 @@ def _case(draw):
     pattern = draw(st.lists(pair, min_size=1, max_size=6))
     reps = draw(st.integers(1, 40))
     sched = (prefix + pattern * reps)[:200]
-    return {'bodies': bodies, 'schedule': [list(s) for s in sched], 'tail': draw(st.sampled_from([2, 5, 8, 13, 21, 40, 90, 200]))}
+    tail = draw(st.sampled_from([2, 2, 3, 3, 5, 8, 13, 21, 40, 90, 200]))
+    if draw(st.booleans()) and len({b['kind'] for b in bodies}) == 1:
+        # lockstep: twins under a strict round-robin with one small quantum from the first line on
+        q = draw(st.integers(2, 5))
+        sched = [(i, q) for _ in range(60) for i in range(n)][:200]
+        tail = q
+    return {'bodies': bodies, 'schedule': [list(s) for s in sched], 'tail': tail}
 
 
 def strategy():
